@@ -217,7 +217,8 @@ def build_pipeline(prog: dict, log=None, hook=None, order=None, pf_extra=None, *
     return Pipeline(pfs, **pipeline_kwargs)
 
 
-def root_value(name: str, spec: dict, sizes: dict):
+def root_value(name: str, spec: dict, sizes: dict, variant: str = ""):
+    name = name + variant  # a second, different set of input values for the same program
     axes = spec["axes"]
     if not axes:
         return f"{name}"
@@ -235,8 +236,8 @@ def used_roots(prog: dict) -> list[str]:
     return [r for r in prog["roots"] if r in used]
 
 
-def make_inputs(prog: dict) -> dict:
-    return {r: root_value(r, prog["roots"][r], prog["sizes"]) for r in used_roots(prog)}
+def make_inputs(prog: dict, variant: str = "") -> dict:
+    return {r: root_value(r, prog["roots"][r], prog["sizes"], variant) for r in used_roots(prog)}
 
 
 def output_names(prog: dict) -> list[str]:
